@@ -4,6 +4,7 @@ import (
 	"context"
 	"errors"
 	"fmt"
+	"os"
 	"sort"
 	"strings"
 	"time"
@@ -70,11 +71,21 @@ func openDB(r *simcore.Run, root string, cfg stCfg, mod func(*database.Options))
 	}
 	var d database.DB
 	var err error
+	ml := logger.NewMemoryLogger()
+	if os.Getenv("VERIF_STORE_LOG") != "" {
+		ml = logger.NewMemoryLoggerWithLevel(logger.LogWarn)
+		opts.WithStoreOptions(opts.GetStoreOptions().WithLogger(ml))
+		r.Defer(func() {
+			for _, l := range ml.GetLogs() {
+				r.Logf("storelog: %s", l)
+			}
+		})
+	}
 	pv, stack := r.Catch(func() {
 		if _, serr := osStat(root + "/db"); serr == nil {
-			d, err = database.OpenDB("db", &nopMultiDB{}, opts, logger.NewMemoryLogger())
+			d, err = database.OpenDB("db", &nopMultiDB{}, opts, ml)
 		} else {
-			d, err = database.NewDB("db", &nopMultiDB{}, opts, logger.NewMemoryLogger())
+			d, err = database.NewDB("db", &nopMultiDB{}, opts, ml)
 		}
 	})
 	if pv != nil {
@@ -181,7 +192,7 @@ func c06Body(r *simcore.Run) {
 		t.Join()
 	}
 	c06Check(r, ops)
-	if r.Sched.MaxLive("indexer") > 8 {
+	if r.Sched.MaxSameName("indexer") > 1 {
 		r.Probe("c06-indexer-overlap")
 	}
 	r.Sample(map[string]interface{}{"config": cfg, "clients": nClients, "ops_per_client": per, "history": ops[:min(len(ops), 12)]})
@@ -359,7 +370,7 @@ func c06Check(r *simcore.Run, ops []*c06Op) {
 				r.Violation("read-error", "", "Get(%q) failed: %s", op.Keys[0], op.Err)
 			}
 			if !ok {
-				r.Violation("not-linearizable", "", "client %d: Get(%q) returned (%v, tx %d, notfound=%v) which matches no state between tx %d and tx %d (call %d, return %d)\n  history: %s", op.Client, op.Keys[0], op.Got, op.TxID, op.NotFound, lo, hi, op.Call, op.Ret, c06Dump(ops))
+				c06Viol(r, "not-linearizable", "client %d: Get(%q) returned (%v, tx %d, notfound=%v) which matches no state between tx %d and tx %d (call %d, return %d)\n  history: %s", op.Client, op.Keys[0], op.Got, op.TxID, op.NotFound, lo, hi, op.Call, op.Ret, c06Dump(ops))
 			}
 		case "scan":
 			if op.Err != "" {
@@ -377,7 +388,7 @@ func c06Check(r *simcore.Run, ops []*c06Op) {
 				ok = strings.Join(want, ",") == strings.Join(op.Got, ",")
 			}
 			if !ok {
-				r.Violation("not-linearizable", "", "client %d: Scan returned %v which matches no state between tx %d and tx %d\n  history: %s", op.Client, op.Got, lo, hi, c06Dump(ops))
+				c06Viol(r, "not-linearizable", "client %d: Scan returned %v which matches no state between tx %d and tx %d\n  history: %s", op.Client, op.Got, lo, hi, c06Dump(ops))
 			}
 		case "hist":
 			if op.NotFound {
@@ -386,7 +397,7 @@ func c06Check(r *simcore.Run, ops []*c06Op) {
 					ok = len(states[s][op.Keys[0]]) == 0
 				}
 				if !ok {
-					r.Violation("not-linearizable", "", "client %d: History(%q) found nothing although versions existed in every state between tx %d and %d", op.Client, op.Keys[0], lo, hi)
+					c06Viol(r, "not-linearizable", "client %d: History(%q) found nothing although versions existed in every state between tx %d and %d", op.Client, op.Keys[0], lo, hi)
 				}
 				continue
 			}
@@ -407,12 +418,12 @@ func c06Check(r *simcore.Run, ops []*c06Op) {
 				}
 			}
 			if !ok {
-				r.Violation("not-linearizable", "", "client %d: History(%q) returned %v (txs %v) which matches no state between tx %d and tx %d\n  history: %s", op.Client, op.Keys[0], op.Got, op.GotTx, lo, hi, c06Dump(ops))
+				c06Viol(r, "not-linearizable", "client %d: History(%q) returned %v (txs %v) which matches no state between tx %d and tx %d\n  history: %s", op.Client, op.Keys[0], op.Got, op.GotTx, lo, hi, c06Dump(ops))
 			}
 		case "pset":
 			if op.TxID != 0 {
 				if !preHolds(states[op.TxID-1], op) {
-					r.Violation("precondition", "", "client %d: conditional write %+v was applied as tx %d although its precondition does not hold on the state after tx %d\n  history: %s", op.Client, *op, op.TxID, op.TxID-1, c06Dump(ops))
+					c06Viol(r, "precondition", "client %d: conditional write %+v was applied as tx %d although its precondition does not hold on the state after tx %d\n  history: %s", op.Client, *op, op.TxID, op.TxID-1, c06Dump(ops))
 				}
 			} else if strings.Contains(op.Err, "precondition") {
 				ok := false
@@ -420,7 +431,7 @@ func c06Check(r *simcore.Run, ops []*c06Op) {
 					ok = !preHolds(states[s], op)
 				}
 				if !ok {
-					r.Violation("precondition", "", "client %d: conditional write %+v was refused although its precondition holds in every state between tx %d and tx %d\n  history: %s", op.Client, *op, lo, hi, c06Dump(ops))
+					c06Viol(r, "precondition", "client %d: conditional write %+v was refused although its precondition holds in every state between tx %d and tx %d\n  history: %s", op.Client, *op, lo, hi, c06Dump(ops))
 				}
 			} else if op.Err != "" && !strings.Contains(op.Err, "limit exceeded") {
 				r.Violation("write-error", "", "conditional Set failed: %s", op.Err)
@@ -509,7 +520,7 @@ func c06Check(r *simcore.Run, ops []*c06Op) {
 		res := porcupine.CheckOperationsTimeout(model, pops, 10*time.Second)
 		switch res {
 		case porcupine.Illegal:
-			r.Violation("not-linearizable", "", "porcupine: the history of key %q is not linearizable\n  history: %s", k, c06Dump(ops))
+			c06Viol(r, "not-linearizable", "porcupine: the history of key %q is not linearizable\n  history: %s", k, c06Dump(ops))
 		case porcupine.Unknown:
 			r.Probe("c06-porcupine-inconclusive")
 		default:
@@ -525,4 +536,16 @@ func c06Dump(ops []*c06Op) string {
 		fmt.Fprintf(&b, "\n    [%d..%d] cl%d %s %v=%v pre=%s(%s,%d) -> tx=%d nf=%v err=%q got=%v", op.Call, op.Ret, op.Client, op.Kind, op.Keys, op.Vals, op.Pre, op.PreKey, op.PreTx, op.TxID, op.NotFound, op.Err, op.Got)
 	}
 	return b.String()
+}
+
+// c06Viol reports an anomaly of an index-dependent operation. If two indexing
+// goroutines of one index were alive at the same time in this run (the
+// structural precondition of the known compaction-restart defect), it is
+// attributed to that finding, otherwise it is a violation.
+func c06Viol(r *simcore.Run, class, format string, args ...interface{}) {
+	if r.Sched != nil && r.Sched.MaxSameName("indexer") > 1 {
+		r.Finding(class, "C04:indexer-overlap-after-compaction", "two indexing goroutines ran concurrently on one index after CompactIndex restarted it; then: "+format, args...)
+		r.EndRun()
+	}
+	r.Violation(class, "", format, args...)
 }
